@@ -363,10 +363,12 @@ def run(tier, seed):
     run.rule = ("ordered pairs of database units: conformable pairs must convert with x = value(v)/value(t) exactly "
                 "(and x t -> v's unit gives 1), pairs from different dimensionalities (incl. reciprocal pairs) must "
                 "give a conformance error whose suggestion, followed literally, makes the sides conformable; compound "
-                "sources/targets with prefixes, plurals, powers, constants and inline definitions; non-trivial = "
+                "sources/targets with prefixes, plurals, powers, constants (also under +-powers and roots), negative sources and inline "
+                "definitions; the number as printed (exact numeral and approximation) times the target as stated must be the source; "
+                "tokens after a complete target must be refused; non-trivial = "
                 "distinct query whose reply was judged against the reference")
     run.assumptions = ["unit values come from the loaded database (C08 judges them)",
-                       "float-valued units are judged on refusal only",
+                       "conversions through a float-valued unit or a root are judged to a relative 1e-9 inside 1e-250..1e250",
                        "names rink cannot read as one identifier are written \"quoted\"; targets that are timezone names or "
                        "conversion keywords are skipped"]
     probe = worker_probe()
